@@ -128,7 +128,16 @@ func makePlans(r *vk.Run, chains []chain) []plan {
 			p3 = append(p3, cfg{Scope: R, Rules: []srule{a, b}})
 		}
 	}
-	plans = append(plans, plan{Name: "rules-2-simple", Cfgs: p3, Chains: all})
+	p3chains := all
+	if !r.Thorough() {
+		p3chains = nil // quick: chains of up to 2 steps
+		for i, c := range chains {
+			if len(c.Steps) <= 2 {
+				p3chains = append(p3chains, i)
+			}
+		}
+	}
+	plans = append(plans, plan{Name: "rules-2-simple", Cfgs: p3, Chains: p3chains})
 	// zero-hash plan: trees of depth <= 1 with a CalledByContract(zero) leaf.
 	var zc []*scond
 	for _, c := range append(append([]*scond{}, zleaves...), depth1(zleaves, 2)...) {
@@ -174,7 +183,7 @@ func makePlans(r *vk.Run, chains []chain) []plan {
 }
 
 func TestCheck(t *testing.T) {
-	r := vk.Start("C15", "model_checking", 150*time.Second, 22*time.Minute)
+	r := vk.Start("C15", "model_checking", 170*time.Second, 22*time.Minute)
 	if r.Replay != "" {
 		replay(r)
 		return
@@ -246,6 +255,10 @@ func TestCheck(t *testing.T) {
 			for k := range st.Contexts {
 				ctxSet.Add(k)
 			}
+			for k := range st.Classes {
+				r.Outcome(k)
+			}
+			r.Sample(fmt.Sprintf("plan %s chain %s: %d checks (%d true, %d false, %d undecided) for signers %s ...", p.Name, b.Chain, st.Evals, st.True, st.False, st.Undecided, cfgs[0]))
 			if bi == 0 {
 				for i, f := range b.Frames {
 					if f.Kind != "G" {
@@ -287,8 +300,6 @@ func TestCheck(t *testing.T) {
 		totalCfgs += len(p.Cfgs)
 		fmt.Printf("plan %-18s configs=%d invocations=%d/%d elapsed=%.0fs\n", p.Name, len(p.Cfgs), done, nj, r.Elapsed())
 	}
-	r.Outcome("vm:check-true")
-	r.Outcome("vm:check-false")
 	var cs []string
 	for _, c := range chains[:min(len(chains), 40)] {
 		cs = append(cs, c.String())
@@ -322,7 +333,7 @@ func TestCheck(t *testing.T) {
 
 // runJob executes one transaction (signer batch) on one chain and judges it.
 func runJob(w *world, b *built, cfgs []cfg, validateCont bool) ([]mismatch, *evalStats) {
-	st := &evalStats{Contexts: map[string]struct{}{}}
+	st := &evalStats{Contexts: map[string]struct{}{}, Classes: map[string]struct{}{}}
 	real, ref := batchSigners(cfgs, &b.N)
 	trace, state, fault, err := w.invoke(b, real, true)
 	if err != nil {
